@@ -3,7 +3,7 @@
 // (DataError, the two host function-pointer fields, usize <-> SimpleNumber conversions of number.rs) are opaque here.
 #![allow(unused_imports, unused_variables, dead_code, unused_mut, unreachable_code, unused_parens, non_snake_case)]
 use vstd::prelude::*;
-use std::collections::HashMap;
+use std::collections::{HashMap, HashSet};
 use std::fmt::{Debug, Display};
 use std::hash::Hash;
 
